@@ -367,6 +367,18 @@ def binop(ctx):
                         if [m[0] for m in ims] == ["into_iter"] and converted_args(ib) and len(ix.regions[id(n)]) == len(ix.regions[id(lp)]) + 1:
                             ok = True
     if left and not ok:
+        # form D: `let mut it = <converted args>.into_iter(); let first = it.next().unwrap(); it.fold(first, op)` - reduce written out
+        for n in left:
+            if n.get("k") == "mcall" and n["name"] == "fold" and len(n["args"]) == 2 and is_local(n["args"][1], p_op) and peel(n["recv"]).get("k") == "local" and peel(n["args"][0]).get("k") == "local":
+                it_id = peel(n["recv"])["id"]
+                f_init = simple_let_init(defs, peel(n["args"][0])["id"])
+                fb, fms = chain(f_init) if f_init is not None else ({}, [])
+                it_init = simple_let_init(defs, it_id)
+                ib, ims = chain(it_init) if it_init is not None else ({}, [])
+                if is_local(fb, it_id) and [m[0] for m in fms] in (["next", "unwrap"], ["next", "expect"]) and [m[0] for m in ims] == ["into_iter"] and converted_args(ib) \
+                        and ix.precedes(defs[peel(n["args"][0])["id"]][1], n):
+                    ok = True
+    if left and not ok:
         # form C: `[first, rest @ ..]` on the arguments; acc = expr(first); for x in <rest, each converted, in order> { acc = op(acc, x) }
         def slice_parts():
             """(id bound to the first argument, id bound to the remaining arguments) from a slice pattern on the argument list"""
@@ -429,12 +441,15 @@ def binop(ctx):
             pats = [(arm["pat"], arm["body"]) for arm in n["arms"]]
         elif n.get("k") == "if" and peel(n["cond"]).get("k") == "letexpr" and is_local(peel(n["cond"])["init"], p_args):
             pats = [(peel(n["cond"])["pat"], n["then"])]
+        elif n.get("k") == "let" and "els" in n and "init" in n and is_local(n["init"], p_args):
+            # `let [lhs, rhs] = args else { return Err(TooManyArgs) };`: the rest of the region runs under the pattern
+            pats = [(n["pat"], [x for x in other if id(x) in ix.pre and ix.precedes(n, x)])]
         for p, body in pats:
             while p.get("k") in ("pref", "pderef"):
                 p = p["pat"]
             if p.get("k") == "pslice" and len(p["before"]) == 2 and "mid" not in p and not p.get("after"):
                 a, b = [binding_of_pat(x) for x in p["before"]]
-                calls = [x for x in walk(body) if x.get("k") == "callv" and is_local(x["f"], p_op)]
+                calls = list({id(x): x for x in (body if isinstance(body, list) else walk(body)) if x.get("k") == "callv" and is_local(x["f"], p_op)}.values())
                 if a and b and len(calls) == 1 and len(calls[0]["args"]) == 2 and converts(calls[0]["args"][0], a[1]) and converts(calls[0]["args"][1], b[1]):
                     ok2 = True
     ctx.inst("R14.1", "bin_op:binary-order", ok2, f["span"], "binary operators must apply op to (first argument, second argument)")
